@@ -295,6 +295,23 @@ class Gate:
                 )
             )
 
+    def _check_fixed_control_value(self):
+        """
+        The matrix of this gate is fixed: it acts on the targets when all
+        the control qubits are 1. Refuse any other ``control_value``
+        (:class:`ControlledGate` builds the matrix for a given value).
+        """
+        if self.control_value is None:
+            return
+        if (
+            not self.controls
+            or self.control_value != 2 ** len(self.controls) - 1
+        ):
+            raise ValueError(
+                f"Gate {self.name} has a fixed matrix, "
+                f"control_value={self.control_value} is not supported."
+            )
+
     def get_compact_qobj(self):
         """
         Get the compact :class:`qutip.Qobj` representation of the gate
@@ -311,6 +328,7 @@ class Gate:
         # TODO This will be moved to each sub-class of Gate.
         # However, one first needs to replace the direct use of Gate in
         # other modules.
+        self._check_fixed_control_value()
         if self.name == "RX":
             qobj = rx(self.arg_value)
         elif self.name == "RY":
@@ -944,6 +962,7 @@ class TOFFOLI(Gate):
 
     def __init__(self, targets, **kwargs):
         super().__init__(targets=targets, **kwargs)
+        self._check_fixed_control_value()
         self.latex_str = r"{\rm TOFFOLI}"
 
     def get_compact_qobj(self):
@@ -972,6 +991,7 @@ class FREDKIN(Gate):
 
     def __init__(self, targets, **kwargs):
         super().__init__(targets=targets, **kwargs)
+        self._check_fixed_control_value()
         self.latex_str = r"{\rm FREDKIN}"
 
     def get_compact_qobj(self):
